@@ -271,6 +271,34 @@ func applyIllTyped(p *pgen.Program, r *rand.Rand, kind string) *c07Mutation {
 		}
 		return nil
 	}
+	if kind == "default-shorthand-narrowing" || kind == "default-explicit-narrowing" {
+		// A stage with the legacy unnamed output (`out T,`, i.e. an output
+		// called "default") consumed through the shorthand `x = CALL` (or
+		// spelled out as CALL.default) by a parameter its type cannot be
+		// converted to: the conversions only go one way (int -> float,
+		// string / file -> path is not allowed the other way round).
+		pairs := [][2]*pgen.Type{{pgen.TFloat, pgen.TInt}, {pgen.ArrayOf(pgen.TFloat), pgen.ArrayOf(pgen.TInt)},
+			{pgen.TPath, pgen.TString}, {pgen.TString, pgen.TInt}, {pgen.ArrayOf(pgen.TInt), pgen.TInt}, {pgen.TInt, pgen.ArrayOf(pgen.TInt)}}
+		pr := pairs[r.Intn(len(pairs))]
+		for _, pl := range pipes {
+			lang, src := "comp", "/bin/true ZZMUT"
+			if len(p.Stages) > 0 {
+				lang = p.Stages[0].SrcLang
+			}
+			def := &pgen.Stage{Name: "ZZDEF", Outs: []pgen.Param{{Name: "default", Type: pr[0]}}, SrcLang: lang, Src: src, File: pl.File}
+			st := &pgen.Stage{Name: "ZZMUT", Ins: []pgen.Param{{Name: "x", Type: pr[1]}},
+				Outs: []pgen.Param{{Name: "y", Type: pgen.TInt}}, SrcLang: lang, Src: src, File: pl.File}
+			p.Stages = append(p.Stages, def, st)
+			ref := &pgen.Exp{Kind: pgen.ERefCall, Id: "ZZDEF"}
+			if kind == "default-explicit-narrowing" {
+				ref.Path = []string{"default"}
+			}
+			pl.Calls = append(pl.Calls, &pgen.Call{Callee: "ZZDEF"},
+				&pgen.Call{Callee: "ZZMUT", Binds: []pgen.Binding{{Id: "x", Exp: ref}}})
+			return &c07Mutation{Kind: kind, Pipeline: pl.Name, Call: "ZZMUT", Param: "x"}
+		}
+		return nil
+	}
 	if kind == "mapped-output-level-short" || kind == "mapped-output-level-short-tmap" {
 		// Two consumers of a map call's output, declared BEFORE the map call
 		// (legal: the compiler sorts calls by dependency), whose parameter has
@@ -463,7 +491,8 @@ func containsOnlyNull(e *pgen.Exp) bool {
 }
 
 var c07Kinds = []string{"wrong-base-type", "array-depth-plus", "array-depth-minus", "array-vs-map", "unknown-parameter",
-	"struct-missing-field", "struct-extra-field", "inconsistent-split", "nonexistent-output", "missing-parameter", "split-wrong-element-level", "mapped-output-level-short", "mapped-output-level-short-tmap"}
+	"struct-missing-field", "struct-extra-field", "inconsistent-split", "nonexistent-output", "missing-parameter", "split-wrong-element-level", "mapped-output-level-short", "mapped-output-level-short-tmap",
+	"default-shorthand-narrowing", "default-explicit-narrowing"}
 
 type c07Input struct {
 	Files map[string]string `json:"files"`
